@@ -12,6 +12,7 @@ func init() {
 	register(&PropDef{ID: "C19", Title: "Template providers: layered definitions, isolated views, cache-transparent", Rules: rulesC19,
 		Explanation: "Decided for both ghprovider.Provider and gtprovider.Provider (sibling implementations must agree): R1 the cache maps (layouts, views) are read and written only under their own mutex — reads included, so concurrent first requests cannot hit 'concurrent map read and map write'; R2 every template handed to the loader (and so to Parse) originates from Clone() or template.New in that build step, never from a cache or from another layer's shared template; R3 the view layer is cloned from Layout(...)'s result and the layout layer from Base()'s; R4 every store into a cache is on the isCached edge, stores a value the builder then returns, and no error return is reachable after it (a half-built template is never cached); the view cache key separates layout and view name by a non-empty constant; R5 the lock order view -> layout -> base is acyclic; R7 (html provider) the private builders layout/view return only templates cloned in that build step, never the shared template of the layer below (html/template cannot Clone a set once it was executed). " +
 			"Added in round 2: R1 also requires that no method of a provider has a value receiver (that would lock a copy of the mutexes while the maps stay shared); R6 the walker that feeds the template loaders looks at entry names only to recognise '.'/'..' and leaves its listing loop early only with a non-nil error (a nested directory does not hide the entries after it). " +
+			"Added in round 5: R1 also covers any other map field of a provider that is written after construction (bookkeeping shared by the layers needs one guard, not the lock of whichever layer happens to run); the caches may be sync.Map fields (Store/LoadOrStore are the stores judged by R4). " +
 			"NOT decided: equivalence of rendered output with a reference renderer; html/template's own escaping state.",
 	})
 }
